@@ -914,13 +914,16 @@ func c13Widths(r *run.Run) {
 func c13WidthsExtreme(r *run.Run) {
 	ws := []float64{0, 500, 31999.5, 32000, 32001, 32100, 32500, 32767, -32000, -32100, -32767}
 	r.Explore(explore.Config{Name: "C13.widths-extreme"},
-		"advance widths of simple fonts with 4 glyphs, widths [w1 w1 w2 w3] over {0, 500, 31999.5, 32000, 32001, 32100, 32500, 32767, -32000, -32100, -32767} (at and beyond the clamp of the path coordinates, up to the ends of the Type 2 number range; widths outside +-32767 are not in the domain): recovered to 16.16 precision by cff.Read and by the independent interpreter",
+		"advance widths of simple fonts with 4 or 5 glyphs, widths [w1 w1 w2 w3 (w4)] over {0, 500, 31999.5, 32000, 32001, 32100, 32500, 32767, -32000, -32100, -32767} (at and beyond the clamp of the path coordinates, up to the ends of the Type 2 number range; widths outside +-32767 are not in the domain): recovered to 16.16 precision by cff.Read and by the independent interpreter",
 		func(c *explore.Ctx) {
 			f := &cff.Font{FontInfo: c13Info(), Outlines: &cff.Outlines{Private: []*type1.PrivateDict{c13Priv(0)}, FDSelect: func(glyph.ID) int { return 0 }}}
 			w1 := ws[c.Choose(len(ws), "repeated width")]
 			sel := []float64{w1, w1, ws[c.Choose(len(ws), "third width")], ws[c.Choose(len(ws), "fourth width")]}
+			if k := c.Choose(len(ws)+1, "fifth width"); k > 0 {
+				sel = append(sel, ws[k-1])
+			}
 			for i, w := range sel {
-				name := []string{".notdef", "A", "B", "C"}[i]
+				name := []string{".notdef", "A", "B", "C", "D"}[i]
 				f.Glyphs = append(f.Glyphs, c13Glyph(name, w, i+1))
 			}
 			f.Encoding = cff.StandardEncoding(f.Glyphs)
@@ -931,9 +934,9 @@ func c13WidthsExtreme(r *run.Run) {
 				return
 			}
 			c13Compare(c, "extreme widths", f, g, sel)
-			if rf != nil && len(rf.Privates) == 1 && len(rf.CharStrings) == 4 {
+			if rf != nil && len(rf.Privates) == 1 && len(rf.CharStrings) == len(sel) {
 				p := rf.Privates[0]
-				for i := 0; i < 4; i++ {
+				for i := range sel {
 					ref, err := reft2.Interpret(rf.CharStrings[i], &reft2.Env{GlobalSubrs: rf.GlobalSubrs, LocalSubrs: p.LocalSubrs, DefaultWidthX: p.DefaultWidthX, NominalWidthX: p.NominalWidthX})
 					if err != nil {
 						c.Fail("C13.structure", "extreme widths / charstring", "glyph %d: %v", i, err)
